@@ -154,11 +154,22 @@ def run_replay(path, quiet=False):
             "except Violation as v:\n"
             "    print('REPLAY-VIOLATION ' + json.dumps(v.todict(), default=repr)); sys.exit(1)\n"
             "print('REPLAY-PASS'); sys.exit(0)\n") % (VERIF, path, flavour)
-    try:
-        p = subprocess.run([PY, "-c", code], cwd=VERIF, env=worker_env(flavour), capture_output=True, text=True,
-                           timeout=float(os.environ.get("VERIF_CASE_TIMEOUT", "120")) * 2, errors="replace")
-    except subprocess.TimeoutExpired:
-        return "hang", "timeout"
+    import types
+    with tempfile.TemporaryFile("w+", errors="replace") as fo, tempfile.TemporaryFile("w+", errors="replace") as fe:
+        # files, not pipes: a sanitizer's symbolizer child can keep a pipe open after the process aborted
+        proc = subprocess.Popen([PY, "-c", code], cwd=VERIF, env=worker_env(flavour), stdout=fo, stderr=fe, start_new_session=True)
+        try:
+            rc = proc.wait(timeout=float(os.environ.get("VERIF_CASE_TIMEOUT", "120")))
+        except subprocess.TimeoutExpired:
+            try:
+                os.killpg(proc.pid, signal.SIGKILL)
+            except OSError:
+                proc.kill()
+            proc.wait()
+            return "hang", "timeout"
+        fo.seek(0)
+        fe.seek(0)
+        p = types.SimpleNamespace(returncode=rc, stdout=fo.read(), stderr=fe.read())
     if p.returncode == 0 and "REPLAY-PASS" in p.stdout:
         return "pass", ""
     if p.returncode == 1 and "REPLAY-VIOLATION" in p.stdout:
@@ -354,7 +365,7 @@ def run_check(check_id, tier, collect=False, plan_override=None):
         json.dump(ev, f, indent=1, default=repr, sort_keys=True)
     print("%s %s: %d cases (%d distinct non-trivial), %d discarded, %d excluded, %.0fs, status %d" % (
         check_id, tier, total["evaluations"], len(hashes), sum(discarded.values()), sum(excluded.values()), time.time() - t0, status))
-    if status != 2 or os.environ.get("VERIF_KEEP_WORK") is None:
+    if os.environ.get("VERIF_KEEP_WORK") is None:
         shutil.rmtree(workdir, ignore_errors=True)
     return status
 
